@@ -293,6 +293,26 @@ def run_c17(ctx, MAX):
     guarded(ctx, 'C17.R3', 'C17.R3/parse_smt_literal-driver', literal_driver, 'C17.R3')
 
 
+def derived_from_new_automaton(t, ip):
+    """the automaton term t is new_automaton() itself, that object after some calls on it (post versions), or the
+    loop-carried version of it (a head variable whose entry value, recorded by the interpreter, is such a term)"""
+    for _ in range(4):
+        if 'new_automaton' in T.show(t):
+            return True
+        nxt = None
+        for rec in ip.loop_records.values():
+            for V, (entry, loc) in rec.get('vec_heads', {}).items():
+                if V == t or V in list(T.subterms(t)):
+                    nxt = entry
+            for hv, ev in rec['mapping']:
+                if hv == t or hv in list(T.subterms(t)):
+                    nxt = nxt or ev
+        if nxt is None:
+            return False
+        t = nxt
+    return False
+
+
 def literal_driver(ctx, rule='C17.R3'):
     """parse_smt_literal feeds EVERY character of the literal, in order, to accept on the one automaton, flushes what is
     still buffered at the end and makes the string from that automaton's buffer (call log + exhaustion of the iteration)."""
@@ -309,6 +329,8 @@ def literal_driver(ctx, rule='C17.R3'):
                 x = acc[0][1][1]
                 ok = (x == ('elem', ('chars', A(0)), poss[0]) or (x[0] == 'elem' and x[2] == poss[0] and 'chars' in T.show(x[1]) and 'a0' in T.show(x[1]))) and \
                     ip.entails(it.state, eq(it.cur.get(poss[0], poss[0]), T.mk_add(poss[0], I(1))))
+                # .. on the automaton that new_automaton() made (as it stands after the characters accepted so far)
+                ok = ok and derived_from_new_automaton(acc[0][1][0], ip)
             okit = okit and ok
         ctx.obligation(okit)
         (ctx.ok if okit else ctx.violation)(rule, rule + '/parse_smt_literal/each-character-in-order-is-accepted-once', fn.path, fn.site(), {'iterations': [[T.show(calllog.call_term(c))[:120] for c in it.calls] for it in log.iterations]}, cfg)
@@ -323,6 +345,7 @@ def literal_driver(ctx, rule='C17.R3'):
             if ok:
                 parser = calls[1][1][0]
                 ok = calls[2][1][0] == ('fld', ('post', PA + '::flush_pending', 0, parser), 'string_so_far') and ip.to_term(o.state, o.value) == calllog.call_term(calls[2])
+                ok = ok and derived_from_new_automaton(parser, ip)
             ctx.obligation(ok)
             (ctx.ok if ok else ctx.violation)(rule, rule + '/parse_smt_literal/all-characters-consumed-then-flush-then-make-from-the-buffer', fn.path, fn.site(), {'calls': [T.show(calllog.call_term(c))[:140] for c in calls], 'leaf_constraints': pc_text(o)}, cfg)
         ctx.obligation(nret >= 1)
@@ -357,39 +380,8 @@ def literal_plumbing(ctx):
     need = all(n in callees for n in ('smt_strings::new_automaton', PA + '::accept', PA + '::flush_pending', 'smt_strings::SmtString::make'))
     ctx.obligation(okset and need)
     (ctx.ok if okset and need else ctx.violation)('C17.R3', 'C17.R3/parse_smt_literal/only-drives-the-automaton', fn.path, fn.site(), {'callees': sorted(set(callees))})
-    # the argument of make is a move of the field string_so_far of the local created by new_automaton
-    ok = False
-    parser_local = None
-    for bb, c, args, dest, tgt, line, exp in fn.calls():
-        nm = c.get('resolved') or c.get('callee')
-        if nm == 'smt_strings::new_automaton':
-            parser_local = dest['l']
-    for bb, c, args, dest, tgt, line, exp in fn.calls():
-        nm = c.get('resolved') or c.get('callee')
-        if nm == 'smt_strings::SmtString::make':
-            a = args[0]
-            src = None
-            if a[0] in ('move', 'copy'):
-                pl = a[1]
-                # follow temporaries / named locals that merely carry the value (the interpreted rule literal_driver
-                # decides the same thing on the abstract state: make's argument is the buffer after flush_pending)
-                src = pl
-                for _ in range(6):
-                    if src['p']:
-                        break
-                    nxt = None
-                    for b2 in fn.blocks:
-                        for s in b2['stmts']:
-                            if s[0] == 'assign' and s[1]['l'] == src['l'] and not s[1]['p'] and s[2][0] == 'use' and s[2][1][0] in ('move', 'copy'):
-                                nxt = s[2][1][1]
-                    if nxt is None:
-                        break
-                    src = nxt
-            if src is not None and src['p'] and src['p'][-1][0] == 'field' and src['p'][-1][2] == 'string_so_far':
-                base = src['l']
-                ok = base == parser_local or _is_alias(fn, base, parser_local)
-    ctx.obligation(ok)
-    (ctx.ok if ok else ctx.violation)('C17.R3', 'C17.R3/parse_smt_literal/make-receives-the-parser-buffer', fn.path, fn.site(), None)
+    # (that make receives the buffer of that same automaton after flush_pending is decided by literal_driver on the
+    # interpreted call log: no syntactic data-flow rule here)
     # writers of `pending` and `string_so_far`
     writers = set()
     for f in cr.nontest_fns():
